@@ -68,8 +68,8 @@ def translate_source():
     os.makedirs(BUILD, exist_ok=True)
     with Lock('translate'):
         binp = os.path.join(BUILD, 'translate-bin')
-        src = os.path.join(TRANSLATE, 'main.go')
-        if not os.path.exists(binp) or os.path.getmtime(binp) < os.path.getmtime(src):
+        srcs = [os.path.join(TRANSLATE, f) for f in os.listdir(TRANSLATE) if f.endswith('.go')]
+        if not os.path.exists(binp) or os.path.getmtime(binp) < max(os.path.getmtime(f) for f in srcs):
             rc, out, err = sh([go_cmd(), 'build', '-o', binp, '.'], cwd=TRANSLATE, env=go_env(), timeout=600)
             if rc != 0:
                 return False, 'the translator does not build: ' + (out + err)[-1500:]
